@@ -35,7 +35,7 @@ CHECKS.update({
         level='exploration',
         technique='model-based histories under a virtual clock with frozen-clock batches (shared expiry times) and non-positive expiry times',
         text='Expiry-weighted histories (incl. >100 items on one expire_time, expire_time <= 0, cull_limit 0/1/2/10, queues) are compared with the reference model on every '
-             'lookup on both sides of the expiry instant, on expire()/cull() completeness and on what lazy culls may remove.',
+             'lookup on both sides of the expiry instant, on expire()/cull() completeness and on what lazy culls may remove; expire()/evict() over several pages are also run against a second client that rewrites expired keys between the pages.',
         note='Exact ties now == expire_time are excluded by construction of the clock; the property is silent there and the code is not uniform.',
         ref='3/C04',
     ),
@@ -138,9 +138,9 @@ CHECKS.update({
     ),
     'C19': dict(
         level='exploration',
-        technique='three-way differential over generated call sequences: written contract model, Django LocMemCache, DjangoCache on one virtual clock (plus a frozen-clock variant)',
+        technique='three-way differential over generated call sequences: written contract model, Django LocMemCache, DjangoCache on one virtual clock (plus a frozen-clock variant); scheduled concurrent clients with linearizability checking',
         text='Sequences over the whole backend API x versions x timeout classes x backend parameters are run against the model, Django\'s reference backend and DjangoCache; '
-             'model vs LocMemCache disagreement is a harness error (guards the reading of the contract), DjangoCache vs model is the violation.',
+             'model vs LocMemCache disagreement is a harness error (guards the reading of the contract), DjangoCache vs model is the violation; 2-3 concurrent clients (own or shared object) under generated schedules must linearize against a dictionary and surface no database error.',
         note='Where the contract is silent and Django\'s own backends disagree (return of set/clear, delete of an expired-but-present key) the model accepts either.',
         ref='3/C19',
     ),
